@@ -41,6 +41,17 @@ def run(tier, seed, drv):
                                      "components": [dev("in1", {"i": ["external", "x"]}, cost=10_000_000), dev("quiet", cost=5_000_000)]},
                                     dev("sink", {"i": ["sys", "y"]}, cost=10_000_000)],
                      "n_ticks": 4, "stims": [{"real": off, "comp": "quiet"}]})
+        # ... and on PERIODIC devices inside systems: the interrupted device still holds its earlier callback
+        # when it re-requests a later one (the re-request must replace it, as it does in the flat wiring)
+        scns.append({"components": [{"name": "O", "kind": "sys", "inputs": {}, "expose": {"y": ["S", "y"]}, "components": [
+            {"name": "S", "kind": "sys", "inputs": {}, "expose": {"y": ["A", "o"]}, "components": [
+                dev("A", cb={"kind": "period", "p": P}), dev("C")]}]}, dev("B", {"i": ["O", "y"]})],
+            "n_ticks": 5, "stims": [{"real": off, "comp": "A"}]})
+        scns.append({"components": [dev("src", cb={"kind": "period", "p": 3 * P}),
+                                    {"name": "sys", "kind": "sys", "inputs": {"x": ["src", "o"]}, "expose": {"y": ["per", "o"]},
+                                     "components": [dev("in1", {"i": ["external", "x"]}), dev("per", cb={"kind": "period", "p": P})]},
+                                    dev("sink", {"i": ["sys", "y"]})],
+                     "n_ticks": 5, "stims": [{"real": off, "comp": "per"}, {"real": off + 2 * P + 1_000_003, "comp": "per"}]})
     for i, scn in enumerate(scns):
         if not S.systems(scn):
             continue
